@@ -7,9 +7,17 @@ def nontrivial(b):
         o["op"] in ("recv", "drain") and o.get("res") in ("disc", "empty") for o in b["ops"])
 
 
+# a set of four members, one closure seen by the set, two arbitrary operations, another look at the set: what the set
+# reports (ids!) after a member left from the front, the middle or the end - exhaustive after the prescribed prelude
+SET_STORY = ["new", "new", "new", "setnew", "setadd", "setadd", "setadd", "setadd", "drop", "setdrain", "*", "*", "setdrain"]
+SET_GEN = dict(agents=(0,), maxch=3, maxreg=0, maxslots=0, maxsets=1, maxops=len(SET_STORY), maxqueue=2, story=SET_STORY)
+
+
 def plans(tier):
     if tier == "quick":
         return [
+            {"name": "story-set4-os", "variant": "os", "mode": "thread", "gen": SET_GEN},
+            {"name": "story-set4-inprocess", "variant": "inprocess", "mode": "thread", "gen": SET_GEN},
             {"name": "bfs-1agent", "variant": "os", "mode": "thread",
              "gen": dict(failsends=True, agents=(0,), maxch=2, maxreg=0, maxslots=1, maxops=3), "filter": nontrivial},
             {"name": "bfs-2agents-process", "variant": "os", "mode": "process",
@@ -19,6 +27,9 @@ def plans(tier):
                          kinds=("typed", "bytes"), simulate=40, depth=100, tlcseed=chancheck.seed())},
         ]
     return [
+        {"name": "story-set4-os", "variant": "os", "mode": "thread", "gen": SET_GEN},
+        {"name": "story-set4-memfd", "variant": "memfd", "mode": "thread", "gen": SET_GEN},
+        {"name": "story-set4-inprocess", "variant": "inprocess", "mode": "thread", "gen": SET_GEN},
         {"name": "bfs-1agent-d4", "variant": "os", "mode": "thread",
          "gen": dict(failsends=True, agents=(0,), maxch=2, maxreg=0, maxslots=1, maxops=4), "filter": nontrivial},
         {"name": "bfs-2agents-process-d4", "variant": "os", "mode": "process",
